@@ -68,6 +68,10 @@ from rl4co.envs import (  # noqa: E402
 )
 from rl4co.envs.common import distribution_utils as DU  # noqa: E402
 from rl4co.envs.graph.flp.generator import FLPGenerator  # noqa: E402
+from rl4co.envs.eda.dpp.generator import DPPGenerator  # noqa: E402
+from rl4co.envs.eda.mdpp.generator import MDPPGenerator  # noqa: E402
+from rl4co.envs.eda.dpp.env import DPPEnv  # noqa: E402
+from rl4co.envs.eda.mdpp.env import MDPPEnv  # noqa: E402
 from rl4co.envs.graph.mcp.generator import MCPGenerator  # noqa: E402
 from rl4co.envs.routing.atsp.generator import ATSPGenerator  # noqa: E402
 from rl4co.envs.routing.cvrp.generator import CAPACITIES, CVRPGenerator  # noqa: E402
@@ -727,6 +731,67 @@ def judge_mcp(j, td, cfg, B):
             j.v("range:n_sets_to_choose", f"n_sets_to_choose {td['n_sets_to_choose'].flatten().tolist()}")
 
 
+# ---------------------------------------------------------------------------------------- EDA (decap placement)
+
+
+def _dpp_ctor(cls):
+    """the chip data files cannot be downloaded here: synthetic files of the right shapes (mc/selection.py) are
+    named through the generator's documented data_dir / *_file arguments; `size` is the grid side"""
+
+    def make(**cfg):
+        from ..selection import ensure_synth_chip
+
+        cfg = dict(cfg)
+        d, files = ensure_synth_chip(int(cfg.pop("size")))
+        return cls(data_dir=d, chip_file=files["chip"], decap_file=files["decap"], freq_file=files["freq"], **cfg)
+
+    return make
+
+
+def judge_dpp(j, td, cfg, B, multi=False):
+    size = cfg["size"]
+    n = size * size
+    if not _keys(j, td, ["locs", "probe", "action_mask"]):
+        return
+    if _shape(j, td, "locs", (B, n, 2)) and _finite(j, td["locs"], "locs"):
+        _range(j, td["locs"], 0.0, 1.0, "locs")
+        grid_ = torch.stack(torch.meshgrid(torch.arange(size), torch.arange(size), indexing="ij"), -1).reshape(-1, 2).double() / size
+        if float((td["locs"].double() - grid_[None]).abs().max()) > 1e-6:
+            j.v("range:locs", "locs is not the normalised grid of cells")
+    if not _shape(j, td, "action_mask", (B, n)):
+        return
+    _dtype(j, td, "action_mask", torch.bool)
+    if multi:
+        if not _shape(j, td, "probe", (B, n)):
+            return
+        _dtype(j, td, "probe", torch.bool)
+        probes = td["probe"].bool()
+        cnt = probes.sum(-1)
+        lo, hi = cfg.get("num_probes_min", 2), cfg.get("num_probes_max", 5)
+        if bool((cnt < lo).any()) or bool((cnt > hi).any()):
+            j.v("range:probe", f"number of probing ports {cnt.tolist()} outside [{lo}, {hi}]")
+    else:
+        if not _shape(j, td, "probe", (B, 1)):
+            return
+        if bool((td["probe"] < 0).any()) or bool((td["probe"] >= n).any()):
+            j.v("range:probe", f"probing port {td['probe'].flatten().tolist()} is not a cell index")
+            return
+        probes = torch.zeros(B, n, dtype=torch.bool).scatter(1, td["probe"].long(), True)
+    if bool((td["action_mask"].bool() & probes).any()):
+        rows = (td["action_mask"].bool() & probes).any(-1).nonzero().flatten().tolist()
+        j.v("forbidden_open", f"a probing port is offered as a decap location by the generated action_mask (rows {rows})")
+    closed = (~td["action_mask"].bool() & ~probes).sum(-1)
+    hi_k = cfg.get("num_keepout_max", 50)
+    if bool((closed > hi_k + (1 if multi else 0)).any()):
+        j.v("range:keepout", f"{closed.tolist()} closed non-port cells with num_keepout_max={hi_k}")
+    if bool((td["action_mask"].sum(-1) < cfg.get("max_decaps", 20)).any()):
+        j.n("dpp: fewer open cells than max_decaps for some instance (keep-out regions may cover the grid; informational)")
+
+
+def judge_mdpp(j, td, cfg, B):
+    judge_dpp(j, td, cfg, B, multi=True)
+
+
 # ===================================================================================================
 # generator registry: class, oracle, environment(s), size notions
 # ===================================================================================================
@@ -796,6 +861,8 @@ GENS = {
     "ffsp": G("ffsp", FFSPGenerator, judge_ffsp, lambda g, c: FFSPEnv(generator=g), lambda c: _ffsp_dims(c)[0] * _ffsp_dims(c)[1], lambda c: _ffsp_dims(c)[0] <= 3 and _ffsp_dims(c)[1] <= 4, lambda c: _ffsp_dims(c)[0] <= 2 and _ffsp_dims(c)[1] <= 4, _ffsp_cap),
     "smtwtp": G("smtwtp", SMTWTPGenerator, judge_smtwtp, lambda g, c: SMTWTPEnv(generator=g, check_solution=False), lambda c: c.get("num_job", 10), lambda c: c.get("num_job", 10) <= 5, lambda c: c.get("num_job", 10) <= 4, lambda c: 4 * c.get("num_job", 10) + 10),
     "flp": G("flp", FLPGenerator, judge_flp, lambda g, c: FLPEnv(generator=g, check_solution=False), lambda c: c.get("num_loc", 100), lambda c: c.get("num_loc", 100) <= 6, lambda c: c.get("num_loc", 100) <= 5, lambda c: 4 * c.get("num_loc", 100) + 10),
+    "dpp": G("dpp", _dpp_ctor(DPPGenerator), judge_dpp, lambda g, c: DPPEnv(generator=g, check_solution=False), lambda c: c["size"] ** 2, lambda c: c["size"] <= 3, lambda c: c["size"] <= 3, lambda c: c.get("max_decaps", 20) + 5),
+    "mdpp": G("mdpp", _dpp_ctor(MDPPGenerator), judge_mdpp, lambda g, c: MDPPEnv(generator=g, check_solution=False), lambda c: c["size"] ** 2, lambda c: c["size"] <= 3, lambda c: c["size"] <= 3, lambda c: c.get("max_decaps", 20) + 5),
     "mcp": G("mcp", MCPGenerator, judge_mcp, lambda g, c: MCPEnv(generator=g, check_solution=False), lambda c: c.get("num_sets", 100), lambda c: c.get("num_sets", 100) <= 6, lambda c: c.get("num_sets", 100) <= 5, lambda c: 4 * c.get("num_sets", 100) + 10),
 }
 
@@ -946,6 +1013,10 @@ def grid(tier):
     for n, k in ([(3, 1), (5, 2), (20, 5), (100, 10)] if q else [(3, 1), (4, 2), (5, 2), (5, 4), (10, 3), (20, 5), (50, 10), (100, 10)]):
         add("flp", dict(num_loc=n, to_choose=k))
     add("flp", dict(num_loc=5, to_choose=2, min_loc=-1.0, max_loc=1.0), [[2]])
+    # --- dpp / mdpp (synthetic chip data of the given grid size)
+    for size, dec, klo, khi in ([(3, 2, 1, 3), (4, 3, 1, 5)] if q else [(3, 2, 1, 3), (3, 3, 1, 2), (4, 3, 1, 5), (5, 4, 2, 8)]):
+        add("dpp", dict(size=size, max_decaps=dec, num_keepout_min=klo, num_keepout_max=khi))
+        add("mdpp", dict(size=size, max_decaps=dec, num_keepout_min=klo, num_keepout_max=khi, num_probes_min=1, num_probes_max=3))
     # --- mcp
     mcps = [(5, 3, 1, 4, 2), (5, 4, 1, 3, 2), (6, 3, 1, 2, 1), (4, 3, 2, 2, 2), (10, 5, 2, 4, 2), (20, 10, 2, 5, 3), (200, 100, 5, 15, 10)]
     if q:
@@ -1242,7 +1313,7 @@ def run_config(p, item, max_dev, seed):
 # work units
 # ===================================================================================================
 
-_POINTS = dict(tsp=1, atsp=1, cvrp=2, cvrptw=4, op=1, pctsp=4, pdp=1, mtsp=2, svrp=3, mdcpdp=4, mtvrp=8, fjsp=5, jssp=3, ffsp=1, smtwtp=3, flp=1, mcp=3)
+_POINTS = dict(dpp=3, mdpp=4, tsp=1, atsp=1, cvrp=2, cvrptw=4, op=1, pctsp=4, pdp=1, mtsp=2, svrp=3, mdcpdp=4, mtvrp=8, fjsp=5, jssp=3, ffsp=1, smtwtp=3, flp=1, mcp=3)
 
 
 def max_dev_of(tier, item):
@@ -1337,7 +1408,7 @@ def main(tier):
         "seam.py's randint wrapper cannot parse randint(low, high, size=...) / randint(high, size=...): a subclass with a corrected argument parser is used (same answers)",
         "truncation of CVRPTW window starts to integers is by design: start >= floor(distance from depot) is demanded, not start >= distance",
         "solvability: exhaustive for size <= 5 (all executions for size <= 4; default + single all-low / all-high deviations otherwise), two extreme schedules + the environment's checker above; MDCPDP only with one depot (multi-depot is a recorded known finding); FFSP step cap = machines x (serial makespan + 1) + operations because waiting steps scale with processing times; other caps 4n+10",
-        "DPP / MDPP generators need chip data files that are not available offline: skipped",
+        "DPP / MDPP generators are run on synthetic chip data files of the right shapes (the real files cannot be downloaded); only grid, ports, keep-out mask and solvability are judged, not the electrical reward",
         "instances whose locations ALL coincide because a coordinate draw was answered with a constant / alternating pattern are probability-zero artefacts of the answer alphabet: findings on them are informational (degenerate_findings), not violations",
         "capacity overrides below max_demand, MTSP with more agents than customers and similar self-contradictory parameterisations are not part of the grid (no documentation declares them valid)",
     ]
